@@ -16,7 +16,7 @@ enum { MK_NULLATTR = 0, MK_DEFATTR, MK_SIZEATTR, MK_USERSTACK, MK_MANY, MK_TASK,
 static const char *mkn[] = { "attr-null", "attr-default", "attr-size", "attr-userstack", "create_many", "tasklet", "unnamed" };
 
 typedef struct iu {
-    int id, how, pool, nsteps, migratable, with_cb, step_kind[ID_MAXSTEPS], step_arg[ID_MAXSTEPS];
+    int id, how, unnamed, pool, nsteps, migratable, with_cb, step_kind[ID_MAXSTEPS], step_arg[ID_MAXSTEPS];
     size_t req_size;
     char *ustack;
     ABT_thread th;
@@ -141,7 +141,7 @@ static void observe(iu *u, const char *when)
     ABT_bool un = ABT_FALSE, un2 = ABT_FALSE;
     ABT_OK(ABT_self_is_unnamed(&un));
     ABT_OK(ABT_thread_is_unnamed(self, &un2));
-    SIM_CHECK(un == un2 && (un == ABT_TRUE) == (u->how == MK_UNNAMED), "identity:unnamed", "unit %d (%s): is_unnamed = %d / %d", u->id, mkn[u->how], (int)un, (int)un2);
+    SIM_CHECK(un == un2 && (un == ABT_TRUE) == (u->unnamed != 0), "identity:unnamed", "unit %d (%s): is_unnamed = %d / %d", u->id, mkn[u->how], (int)un, (int)un2);
     /* argument and function */
     void *arg = NULL, *arg2 = NULL;
     ABT_OK(ABT_self_get_arg(&arg));
@@ -345,6 +345,7 @@ static void run_identity(void)
         u->id = i;
         u->uid = (ABT_unit_id)-1;
         u->how = (int)plan_n(MK_N);
+        u->unnamed = u->how == MK_UNNAMED;
         u->pool = u->cur_pool = (int)plan_n((uint32_t)rt->npools);
         u->nsteps = plan_range(0, ID_MAXSTEPS);
         u->migratable = u->how == MK_NULLATTR || u->how == MK_TASK || u->how == MK_UNNAMED || plan_n(4) != 0;
@@ -416,16 +417,20 @@ static void run_identity(void)
             fl[k] = id_fn;
             al[k] = u;
         }
-        ABT_OK(ABT_thread_create_many(nmany, pl, fl, al, attr, tl));
+        int batch_unnamed = plan_n(3) == 0; /* no handle array: the whole batch is unnamed */
+        if (batch_unnamed)
+            for (int k = 0; k < nmany; k++)
+                I.U[many_idx[k]].unnamed = 1;
+        ABT_OK(ABT_thread_create_many(nmany, pl, fl, al, attr, batch_unnamed ? NULL : tl));
         ABT_OK(ABT_thread_attr_free(&attr));
-        for (int k = 0; k < nmany; k++) {
+        for (int k = 0; k < nmany && !batch_unnamed; k++) {
             I.U[many_idx[k]].th = tl[k];
             I.U[many_idx[k]].have_th = 1;
         }
     }
     for (int i = 0; i < I.n; i++) {
         iu *u = &I.U[i];
-        if (u->how == MK_UNNAMED) {
+        if (u->unnamed) {
             while (!u->done)
                 ABT_OK(ABT_thread_yield());
             continue;
